@@ -118,7 +118,7 @@ fn dispatch(w: &[&str]) -> String {
         "dec" => decop::run(&w[1..]),
         "fblk" => floatop::run(&w[1..]),
         "fnarrow" => floatop::run_narrow(&w[1..]),
-        "sink" => sinkop::run_raw(&w[1..]), "sinkenc" => sinkop::run_enc(&w[1..]), "sinkval" => sinkop::run_val(&w[1..]), "encseq" => sinkop::run_encseq(&w[1..]), "sinkiter" => sinkop::run_iter(&w[1..]), "sinkio" => sinkop::run_sinkio(&w[1..]), "givesup" => sinkop::run_givesup(&w[1..]),
+        "sink" => sinkop::run_raw(&w[1..]), "sinkenc" => sinkop::run_enc(&w[1..]), "sinkval" => sinkop::run_val(&w[1..]), "encseq" => sinkop::run_encseq(&w[1..]), "sinkiter" => sinkop::run_iter(&w[1..]), "sinkio" => sinkop::run_sinkio(&w[1..]), "givesup" => sinkop::run_givesup(&w[1..]), "sinktok" => sinkop::run_tok(&w[1..]),
         "display" => dispop::run(&w[1..]),
         "iana" => iana(),
         "intshow" => intshow(&w[1..]), "inteq" => inteq(&w[1..]),
